@@ -98,6 +98,12 @@ theorem matchAt_bound (r : Re) (s : Bytes) (n : Nat) (h : matchAt r s = some n) 
       split at hx
       · exact hk _ _ hx
       · simp at hx
+    | la r _ =>
+      intro s k P hk x hx
+      unfold M at hx
+      split at hx
+      · exact hk _ _ hx
+      · simp at hx
   exact key r s _ (fun n => n ≤ s.length)
     (fun t x hx => by simp only [Option.some.injEq] at hx; subst hx; exact Nat.sub_le _ _) n h
 
